@@ -69,6 +69,15 @@ def register(reg, prop="C01"):
         I.ctx.ghost["kexp_result"] = res
         return res
     reg.policies["emu_base.math.krylov_exp:krylov_exp"] = krylov_exp_model
+    def hermitian_part_model(I, m):
+        # (M + M^dagger)/2 of the exponentiated matrix (fix d112f14): abstract, the argument is recorded
+        I.ctx.ghost.setdefault("herm_calls", []).append(m)
+        res = Opaque("hermitian_part")
+        I.ctx.ghost["herm_result"] = res
+        return res
+    reg.policies[f"{TE}:_hermitian_part"] = hermitian_part_model
+    G["herm_args"] = lambda I: I.ctx.ghost.get("herm_calls", [])
+    G["herm_result"] = lambda I: I.ctx.ghost["herm_result"]
     reg.policies[f"{TE}:EvolveStateVector.get_hamiltonian"] = "inline"
     reg.policies[f"{TE}:EvolveDensityMatrix.get_hamiltonian"] = "inline"
 
@@ -110,6 +119,11 @@ def register(reg, prop="C01"):
     p2["full_interaction_matrix"] = p2.pop("interaction_matrix")
     p2["density_matrix"] = p2.pop("state")
     ens2 = [e.replace("is state", "is density_matrix") for e in common_ens]
+    # the Lindblad step returns the Hermitian part of the exponential (the generator is the Lindbladian only on
+    # Hermitian matrices: known_findings F33), taken exactly once and of exactly the Krylov result
+    ens2 = [e.replace("result[0] is kexp_result()",
+                      "len(herm_args()) == 1 and herm_args()[0] is kexp_result() and result[0] is herm_result()")
+            for e in ens2]
     reg.add_contract(Contract(
         f"{TE}:EvolveDensityMatrix.apply", property=prop, params=p2,
         ensures=ens2 + ["op_operator().kind == 'RydbergLindbladian'",
